@@ -156,10 +156,10 @@ impl Property for C25 {
     let docopts = DocOpts { text: TextOpts { max_words: 5, odd: true, vocab: 5 }, max_multi: 2, absent: 1, max_nested_objs: 0, null_items: false, extremes: false };
     let docs = vec((gen::doc_id(10), gen::doc_body(&s, docopts)), 2..7);
     let query = prop_oneof![
-      5 => select(vec!["rust", "rust", "ruby", "rust ruby rubber", "search engine", "rubber", "nothing", "body:rust", "title:ruby"]).prop_map(|s| json!(s)),
+      5 => select(vec!["rust", "rust", "ruby", "rust ruby rubber", "search engine", "rubber", "nothing", "body:rust", "title:ruby", "\"rust ruby\"", "\"search engine\"", "\"ruby rust\" rubber", "-rust ruby", "+rust"]).prop_map(|s| json!(s)),
       2 => select(vec![json!({"type": "match_all"}), json!({"type": "term", "field": "body", "value": "rust"}), json!({"type": "prefix", "field": "body", "value": "r"}), json!({"type": "bool", "should": [{"type": "term", "field": "body", "value": "fox"}, {"type": "term", "field": "tag", "value": "red"}]})]),
     ];
-    let sort = vec((select(vec!["_score", "year", "price", "tag", "rank"]).prop_map(|s| s.to_string()), proptest::option::weighted(0.8, select(vec!["asc", "desc", "desc"]).prop_map(|s| s.to_string()))), 0..3);
+    let sort = vec((select(vec!["_score", "_score", "year", "price", "tag", "rank"]).prop_map(|s| s.to_string()), proptest::option::weighted(0.65, select(vec!["asc", "desc", "desc"]).prop_map(|s| s.to_string()))), 0..3);
     let aggs = proptest::option::weighted(0.4, select(vec![json!({"t": {"type": "terms", "field": "tag"}}), json!({"s": {"type": "stats", "field": "year"}, "h": {"type": "histogram", "field": "price", "interval": 0.5}}), json!({"th": {"type": "top_hits", "size": 2}})]));
     let search = (query, 1usize..6, sort, aggs, select(vec!["wand", "bm25", "bmw"]), any::<bool>(), any::<bool>(), any::<bool>())
       .prop_map(|(query, limit, sort, aggs, execution, return_stored, request_file, page2)| Step::Search(SearchSpec { query, limit, sort, aggs, execution: execution.to_string(), return_stored, request_file, page2 }));
@@ -362,7 +362,8 @@ impl Property for C25 {
                   let _ = std::fs::write(&f, full.to_string());
                   cli(&["search", &root, "--request", &f.display().to_string()])
                 } else {
-                  let mut args: Vec<String> = vec!["search".into(), root, "-q".into(), spec.query.as_str().unwrap().to_string(), "--limit".into(), spec.limit.to_string(), "--execution".into(), spec.execution.clone()];
+                  // `--query=<text>`: a query text may start with '-' (a negated term)
+                  let mut args: Vec<String> = vec!["search".into(), root, format!("--query={}", spec.query.as_str().unwrap()), "--limit".into(), spec.limit.to_string(), "--execution".into(), spec.execution.clone()];
                   if spec.return_stored {
                     args.push("--return-stored".into());
                   }
